@@ -32,6 +32,16 @@ NOT_APPLICABLE = {
 
 # property id -> (technique, level category, level text, level note, design ref)
 CLAIMED = {
+    "C02": ("sibling cross-check of the Fourier back ends (exponent sign, net normalisation, Hermitisation placement), "
+            "accumulate-not-assign rule for wrapped R-vectors, typestate rule for the K-shift phase",
+            "other",
+            "Decides that no R->k back end (fftw, numpy, explicit sum, k-list) differs from its siblings in the sign of the "
+            "exponent, the net normalisation or the Hermitisation; that R-blocks wrapped onto the FFT box are accumulated; that "
+            "the K-shift phase is steered only by state every configuration path re-assigns; that derivative factors are "
+            "+i(R + tau_j - tau_i) applied der times; and that the q->R wrappers agree in direction. Does not decide numerical "
+            "agreement to rounding.",
+            "Trusted: Python ast; numpy/pyFFTW backward transforms carry 1/N and exp(+i...).",
+            "DESIGN.md §3 C02"),
     "C04": ("attribute-definedness over the class hierarchy along the call graph of the random_gauge branch; "
             "constructor parameter -> store -> load chain",
             "other",
